@@ -30,7 +30,7 @@ fn subsets_of(archive: Arc<Vec<u8>>, label: &str) -> Result<(u64, u64, u64), Str
     let server = Server::start(archive.clone(), httpd::well_behaved());
     let url = server.url();
     let rt = crate::exec::rt_multi(2);
-    let log = server.log.clone();
+    let log = server.log_handle();
     let label = label.to_string();
     rt.block_on(async move {
         let reader = crate::lib_drv::http_reader(&url, 0)?;
@@ -43,7 +43,7 @@ fn subsets_of(archive: Arc<Vec<u8>>, label: &str) -> Result<(u64, u64, u64), Str
                 let d = &model.parsed.dict.descs[i];
                 index.add_chunk(bitar::HashSum::from(&d.checksum[..]), d.source_size as usize, &[0]);
             }
-            let mark = log.lock().unwrap().len();
+            let mark = log.len();
             {
                 let mut st = a.chunk_stream(&index);
                 let mut k = 0;
@@ -59,7 +59,7 @@ fn subsets_of(archive: Arc<Vec<u8>>, label: &str) -> Result<(u64, u64, u64), Str
                     return Err(format!("{}: stream delivered {} of {} chunks", label, k, subset.len()));
                 }
             }
-            let got: Vec<(u64, u64)> = log.lock().unwrap()[mark..].iter().filter_map(|r| r.req.range).collect();
+            let got: Vec<(u64, u64)> = log.ranges_from(mark);
             let want = model.runs(&subset);
             if got != want {
                 return Err(format!(
